@@ -82,37 +82,108 @@ def step (s : St) : Op → St × Nat
        granted := s.granted + (match s.lim with | .unlimited => 0 | .limited _ => r.2) }, r.2)
   | .setLimit k => ({ s with lim := setLimit s.lim k }, 0)
 
+/-! ### The FIFO lock of `LimitedRateLimiter.take_tokens` (rate_limiter.py: `async with self._lock`)
+
+Waiters are served one at a time in order of arrival: the lock holder polls (and sleeps `INTERVAL`
+between empty polls) until it is granted tokens, then releases; `asyncio.Lock.release` wakes the
+first waiter, which polls at once (same clock reading) — a cascade while the bucket still has tokens. -/
+
+structure LObj where
+  lim : Lim
+  holder : Option Nat       -- poller inside the `async with` block (asleep between two polls)
+  queue : List Nat          -- pollers waiting for the lock, in order of arrival
+deriving Repr, DecidableEq
+
+/-- lock released at clock `now`: hand over along the queue while polls succeed; returns the pollers
+served, in order -/
+def cascade (lim : Lim) (now : Nat) : List Nat → LObj × List Nat
+  | [] => ({ lim := lim, holder := none, queue := [] }, [])
+  | q :: rest =>
+    let r := Rate.poll lim now
+    if r.2 = 0 then ({ lim := r.1, holder := some q, queue := rest }, [])
+    else
+      let c := cascade r.1 now rest
+      (c.1, q :: c.2)
+
+/-- the holder's sleep is over (or it just acquired the lock): one poll at clock `now` -/
+def LObj.holderPoll (o : LObj) (now : Nat) : LObj × List Nat :=
+  match o.holder with
+  | none => (o, [])
+  | some h =>
+    let r := Rate.poll o.lim now
+    if r.2 = 0 then ({ o with lim := r.1 }, [])
+    else
+      let c := cascade r.1 now o.queue
+      (c.1, h :: c.2)
+
+/-- poller `p` calls `take_tokens()` at clock `now` -/
+def LObj.arrive (o : LObj) (p now : Nat) : LObj × List Nat :=
+  match o.holder with
+  | none => ({ o with holder := some p }).holderPoll now      -- lock free: acquire and poll at once
+  | some _ => ({ o with queue := o.queue ++ [p] }, [])        -- wait for the lock
+
 /-! ### Limiter objects as `Network` and its connections hold them
 
 `set_*_speed_limit` creates a *new* object and re-points every connection at it; a
-`take_tokens()` call that is parked in its `sleep` keeps polling the object it started on. -/
+`take_tokens()` call that is pending (holding or awaiting the old object's lock) stays with the
+object it started on. -/
+
+inductive NObj
+  | unlimited
+  | limited (o : LObj)
+deriving Repr
+
+def NObj.limiter : NObj → Limiter
+  | .unlimited => .unlimited
+  | .limited o => .limited o.lim
 
 structure Net where
-  objs : List Limiter          -- every limiter object created so far; index = identity
+  objs : List NObj             -- every limiter object created so far; index = identity
   cur : Nat                    -- the object connections are pointed at
-  parked : List (Nat × Nat)    -- (poller, object its pending `take_tokens` belongs to)
+  bound : List (Nat × Nat)     -- (poller, object its pending `take_tokens` belongs to)
   now : Nat
 deriving Repr
 
-def Net.objOf (n : Net) (pid : Nat) : Nat :=
-  match n.parked.find? (·.1 = pid) with
-  | some p => p.2
-  | none => n.cur
+def Net.objOf (n : Net) (pid : Nat) : Option Nat := (n.bound.find? (·.1 = pid)).map (·.2)
 
-def Net.poll (n : Net) (pid dt : Nat) : Net × Nat × Nat :=
+inductive PollStatus | blocked | polled | noObject
+deriving Repr, DecidableEq
+
+/-- clock += dt, then poller `pid` is stepped: it starts a `take_tokens()` call on the current
+object, or — if it has one pending and is the lock holder — wakes from its sleep and polls.
+Returns the served pollers with their grants, the object touched and the status. -/
+def Net.poll (n : Net) (pid dt : Nat) : Net × List (Nat × Nat) × Nat × PollStatus :=
   let now := n.now + dt
-  let i := n.objOf pid
-  match n.objs[i]? with
-  | none => ({ n with now := now }, 0, i)
-  | some o =>
-    let r := o.poll now
-    let parked := n.parked.filter (·.1 ≠ pid)
-    ({ n with objs := n.objs.set i r.1, now := now,
-              parked := if r.2 = 0 then (pid, i) :: parked else parked }, r.2, i)
+  match n.objOf pid with
+  | some i =>
+    match n.objs[i]? with
+    | some (.limited o) =>
+      if o.holder = some pid then
+        let r := o.holderPoll now
+        ({ n with objs := n.objs.set i (.limited r.1), now := now,
+                  bound := n.bound.filter (fun b => !r.2.contains b.1) },
+         r.2.map (·, Generated.Rate.minBucket), i, .polled)
+      else ({ n with now := now }, [], i, .blocked)
+    | _ => ({ n with now := now }, [], i, .noObject)
+  | none =>
+    let i := n.cur
+    match n.objs[i]? with
+    | some .unlimited => ({ n with now := now }, [(pid, Generated.Rate.unlimitedGrant)], i, .polled)
+    | some (.limited o) =>
+      let r := o.arrive pid now
+      let waiting := o.holder.isSome
+      ({ n with objs := n.objs.set i (.limited r.1), now := now,
+                bound := ((pid, i) :: n.bound).filter (fun b => !r.2.contains b.1) },
+       r.2.map (·, Generated.Rate.minBucket), i, if waiting then .blocked else .polled)
+    | none => ({ n with now := now }, [], i, .noObject)
 
 def Net.setLimit (n : Net) (kbps : Nat) : Net :=
   match n.objs[n.cur]? with
   | none => n
-  | some o => { n with objs := n.objs ++ [Rate.setLimit o kbps], cur := n.objs.length }
+  | some o =>
+    let fresh : NObj := match Rate.setLimit o.limiter kbps with
+      | .unlimited => .unlimited
+      | .limited l => .limited { lim := l, holder := none, queue := [] }
+    { n with objs := n.objs ++ [fresh], cur := n.objs.length }
 
 end AioslskVerif.Rate
